@@ -67,10 +67,11 @@ import re
 demo = meta["demo_cmd"]
 demo = re.sub(r"git apply \S*demo\.diff\s*&&\s*", "", demo)          # demo.diff is applied above
 demo = re.sub(r"/tmp/mutw/%s(?!-out)" % ID, WT, demo)
-rc1, out1 = sh("timeout 3000 " + demo)
+import shlex
+rc1, out1 = sh("timeout 3000 bash -c " + shlex.quote(demo))
 res["demo_with_patch_rc"] = rc1
 rc, out = sh("git apply -R %s/patch.diff" % OUT)
-rc2, out2 = sh("timeout 3000 " + demo)
+rc2, out2 = sh("timeout 3000 bash -c " + shlex.quote(demo))
 res["demo_without_patch_rc"] = rc2
 res["demo_tail_with_patch"] = out1[-600:]
 clean()
